@@ -1107,6 +1107,8 @@ func ruleRegister(c *Ctx, rule string) {
 		if mt, ok := fl.Type().Underlying().(*types.Map); ok {
 			if _, isFn := mt.Elem().Underlying().(*types.Signature); isFn {
 				fields = append(fields, fl.Name())
+			} else if hasMethod(mt.Elem(), "Close") {
+				fields = append(fields, fl.Name()) // the handles themselves (io.Closer) instead of their Close functions
 			}
 		}
 	}
